@@ -1,39 +1,724 @@
 (* TtlLitFacts.v — C08 for tlru_cache (uni = false) and utlru_cache (uni = true): the literal
    machine (TtlLit.v) never reaches UB and computes exactly what the mid-level model
    (TtlLru.v) computes. *)
-Require Import Capp.Base Capp.Spec Capp.TtlLru Capp.TtlLruFacts Capp.RrLit Capp.LruLit Capp.TtlLit.
+Require Import Capp.Base Capp.Spec Capp.Rr Capp.TtlLru Capp.TtlLruFacts Capp.RrLit Capp.LruLit Capp.TtlLit.
 From Coq Require Import Strings.String.
+From Coq Require Import Permutation Sorted.
 
-Section TtlLitFacts.
+(* ------------------------------------------------------------------------------------ *)
+(* the std::list model on a list  used ++ free  whose partition iterator is begin(free)  *)
+(* (same lemmas as in LruLitFacts.v)                                                     *)
+(* ------------------------------------------------------------------------------------ *)
+Section StlFacts.
+  Local Open Scope list_scope.
+  Local Open Scope nat_scope.
+
+  Lemma iter_eqb_true a b : iter_eqb a b = true -> a = b.
+  Proof.
+    destruct a as [x|], b as [y|]; simpl; intros E; try discriminate; auto.
+    apply Nat.eqb_eq in E. subst; auto.
+  Qed.
+  Lemma iter_eqb_refl a : iter_eqb a a = true.
+  Proof. destruct a; simpl; auto. apply Nat.eqb_refl. Qed.
+  Lemma iter_eqb_neq a b : a <> b -> iter_eqb a b = false.
+  Proof.
+    intros N. destruct (iter_eqb a b) eqn:E; auto. apply iter_eqb_true in E. contradiction.
+  Qed.
+
+  Lemma mem_nat_true n l : mem_nat n l = true <-> In n l.
+  Proof.
+    induction l as [|x r IH]; simpl.
+    - split; [discriminate|tauto].
+    - rewrite orb_true_iff, IH, Nat.eqb_eq. split; intros [E|I]; auto.
+  Qed.
+  Lemma mem_nat_in n l : In n l -> mem_nat n l = true.
+  Proof. apply mem_nat_true. Qed.
+
+  (* no node of [a] is the first node of [free] *)
+  Definition sep (a free : list nat) : Prop := forall x, In x a -> l_begin free <> It x.
+
+  Lemma nodup_sep a free : NoDup (a ++ free) -> sep a free.
+  Proof.
+    intros N x I E. destruct free as [|m f]; simpl in E; [discriminate|].
+    inversion E; subst m. apply NoDup_remove_2 in N. apply N. apply in_or_app; left; auto.
+  Qed.
+
+  Lemma sep_tail x a free : sep (x :: a) free -> sep a free.
+  Proof. intros S y I. apply S. right; auto. Qed.
+
+  Lemma valid_begin_app used free : valid_it (used ++ free) (l_begin free) = true.
+  Proof.
+    destruct free as [|m f]; simpl; auto. apply mem_nat_in. apply in_or_app. right; left; auto.
+  Qed.
+
+  Lemma before_app u n free : sep (u ++ [n]) free ->
+    before (l_begin free) (u ++ n :: free) = Some n.
+  Proof.
+    induction u as [|x u IH]; intros S.
+    - simpl. destruct free as [|m f]; simpl; auto. rewrite Nat.eqb_refl; auto.
+    - assert (S' : sep (u ++ [n]) free) by (eapply sep_tail; exact S).
+      specialize (IH S').
+      change ((x :: u) ++ n :: free) with (x :: (u ++ n :: free)).
+      destruct u as [|y u'].
+      + simpl app in *. simpl before at 1.
+        rewrite iter_eqb_neq by (apply S; simpl; auto). exact IH.
+      + simpl app in *. simpl before at 1.
+        rewrite iter_eqb_neq by (apply S; simpl; auto). exact IH.
+  Qed.
+
+  Lemma l_begin_in a b : a <> [] -> exists h, l_begin (a ++ b) = It h /\ In h a.
+  Proof. destruct a as [|h a]; [congruence|]. intros _. exists h. simpl; auto. Qed.
+
+  Lemma l_prev_app u n free : NoDup (u ++ n :: free) ->
+    l_prev (u ++ n :: free) (l_begin free) = Ok (It n).
+  Proof.
+    intros N.
+    assert (E : u ++ n :: free = (u ++ [n]) ++ free) by (rewrite <- app_assoc; reflexivity).
+    assert (S : sep (u ++ [n]) free) by (apply nodup_sep; rewrite <- E; exact N).
+    unfold l_prev. rewrite E at 1. rewrite valid_begin_app.
+    destruct (l_begin_in (u ++ [n]) free) as (h & Eh & Ih). { destruct u; discriminate. }
+    rewrite E at 1. rewrite Eh. rewrite iter_eqb_neq by (apply S; exact Ih).
+    rewrite before_app by exact S. reflexivity.
+  Qed.
+
+  Lemma l_back_app u n : l_back (u ++ [n]) = Ok n.
+  Proof.
+    unfold l_back. destruct (u ++ [n]) as [|y r] eqn:E; [destruct u; discriminate|].
+    rewrite <- E, last_last. reflexivity.
+  Qed.
+
+  Lemma after_app u n free : ~ In n u -> after n (u ++ n :: free) = l_begin free.
+  Proof.
+    induction u as [|x u IH]; intros NI; simpl.
+    - rewrite Nat.eqb_refl. reflexivity.
+    - destruct (Nat.eqb_spec n x) as [E|Nx]; [exfalso; apply NI; left; auto|].
+      apply IH. intros I. apply NI. right; auto.
+  Qed.
+
+  (* remove_nat *)
+  Lemma remove_nat_app_in n a b : In n a -> remove_nat n (a ++ b) = remove_nat n a ++ b.
+  Proof.
+    induction a as [|x a IH]; simpl; intros I; [tauto|].
+    destruct (Nat.eqb_spec n x) as [E|Nx]; auto.
+    destruct I as [E|I]; [congruence|]. simpl. f_equal. auto.
+  Qed.
+  Lemma remove_nat_app_notin n a b : ~ In n a -> remove_nat n (a ++ b) = a ++ remove_nat n b.
+  Proof.
+    induction a as [|x a IH]; simpl; intros NI; auto.
+    destruct (Nat.eqb_spec n x) as [E|Nx]; [exfalso; apply NI; auto|].
+    f_equal. apply IH. intros I; apply NI; auto.
+  Qed.
+  Lemma remove_nat_notin n a : ~ In n a -> remove_nat n a = a.
+  Proof.
+    intros NI. rewrite <- (app_nil_r a) at 1. rewrite remove_nat_app_notin by auto.
+    simpl. apply app_nil_r.
+  Qed.
+  Lemma remove_nat_last n u : ~ In n u -> remove_nat n (u ++ [n]) = u.
+  Proof.
+    intros NI. rewrite remove_nat_app_notin by auto. simpl. rewrite Nat.eqb_refl. apply app_nil_r.
+  Qed.
+  Lemma perm_remove_nat n l : In n l -> Permutation (n :: remove_nat n l) l.
+  Proof.
+    induction l as [|x r IH]; simpl; intros I; [tauto|].
+    destruct (Nat.eqb_spec n x) as [E|Nx]; [subst; reflexivity|].
+    destruct I as [E|I]; [congruence|].
+    eapply perm_trans; [apply perm_swap|]. apply perm_skip. auto.
+  Qed.
+  Lemma in_remove_nat n l x : NoDup l -> (In x (remove_nat n l) <-> In x l /\ x <> n).
+  Proof.
+    induction l as [|y r IH]; simpl; intros N; [tauto|].
+    inversion N as [|y' r' Hni Hnd]; subst.
+    destruct (Nat.eqb_spec n y) as [E|Ny].
+    - subst y. split.
+      + intros I. split; auto. intros E; subst; auto.
+      + intros [[E|I] Nx]; [congruence|auto].
+    - simpl. rewrite IH by auto. split.
+      + intros [E|[I Nx]]; [subst; split; auto|auto].
+      + intros [[E|I] Nx]; auto.
+  Qed.
+  Lemma in_remove_nat_weak n l x : In x (remove_nat n l) -> In x l.
+  Proof.
+    induction l as [|y r IH]; simpl; auto.
+    destruct (Nat.eqb_spec n y) as [E|Ny]; simpl; auto. intros [E|I]; auto.
+  Qed.
+  Lemma nodup_remove_nat n l : NoDup l -> NoDup (remove_nat n l).
+  Proof.
+    induction l as [|y r IH]; simpl; intros N; [constructor|].
+    inversion N as [|y' r' Hni Hnd]; subst.
+    destruct (Nat.eqb_spec n y) as [E|Ny]; auto.
+    constructor; auto. intros I. apply Hni. eapply in_remove_nat_weak; eauto.
+  Qed.
+  Lemma remove_nat_rev n l : NoDup l -> remove_nat n (rev l) = rev (remove_nat n l).
+  Proof.
+    induction l as [|x r IH]; simpl; intros N; auto.
+    inversion N as [|x' r' Hni Hnd]; subst.
+    destruct (Nat.eqb_spec n x) as [E|Nx].
+    - subst x. apply remove_nat_last. rewrite <- in_rev. auto.
+    - simpl. rewrite <- IH by auto.
+      destruct (in_dec Nat.eq_dec n (rev r)) as [I|NI].
+      + apply remove_nat_app_in; auto.
+      + rewrite remove_nat_app_notin by auto. simpl.
+        destruct (Nat.eqb_spec n x) as [E|_]; [congruence|].
+        rewrite remove_nat_notin by auto. reflexivity.
+  Qed.
+
+  Lemma insert_before_app a n free : sep a free ->
+    insert_before (l_begin free) n (a ++ free) = a ++ n :: free.
+  Proof.
+    induction a as [|x a IH]; intros S; simpl.
+    - destruct free as [|m f]; simpl; auto. rewrite Nat.eqb_refl; auto.
+    - rewrite iter_eqb_neq by (apply S; left; auto). f_equal. apply IH. eapply sep_tail; eauto.
+  Qed.
+
+  (* splice(partition point, list, n) for a used node n *)
+  Lemma l_splice_end used free n : NoDup (used ++ free) -> In n used ->
+    l_splice (used ++ free) (l_begin free) (It n) = Ok (remove_nat n used ++ n :: free).
+  Proof.
+    intros N I. pose proof (nodup_sep _ _ N) as S.
+    unfold l_splice. rewrite mem_nat_in by (apply in_or_app; auto).
+    rewrite valid_begin_app. rewrite iter_eqb_neq by (apply S; auto).
+    rewrite remove_nat_app_in by auto. rewrite insert_before_app; auto.
+    intros x Ix. apply S. eapply in_remove_nat_weak; eauto.
+  Qed.
+
+  (* splice(begin(), list, n) *)
+  Lemma l_splice_begin l n : In n l -> l_splice l (l_begin l) (It n) = Ok (n :: remove_nat n l).
+  Proof.
+    intros I. unfold l_splice. rewrite mem_nat_in by auto.
+    destruct l as [|x r]; [destruct I|]. simpl l_begin.
+    assert (Hv : valid_it (x :: r) (It x) = true) by (simpl; rewrite Nat.eqb_refl; auto).
+    rewrite Hv. simpl iter_eqb. simpl remove_nat.
+    destruct (Nat.eqb_spec x n) as [E|Nx].
+    - subst x. rewrite Nat.eqb_refl. reflexivity.
+    - destruct (Nat.eqb_spec n x) as [E|_]; [congruence|].
+      simpl. rewrite Nat.eqb_refl. reflexivity.
+  Qed.
+End StlFacts.
+
+(* ------------------------------------------------------------------------------------ *)
+(* association lists, vectors, reading a node sequence through the cells                 *)
+(* ------------------------------------------------------------------------------------ *)
+Section ReadFacts.
+  Context {K : Type} `{EqDec K} {A : Type}.
+  Local Open Scope list_scope.
+  Local Open Scope nat_scope.
+
+  Lemma in_pair_keys k a (l : list (K * A)) : In (k, a) l -> In k (keys l).
+  Proof. intros I. unfold keys. apply in_map_iff. exists (k, a). auto. Qed.
+
+  Lemma remk_notin_id k (l : list (K * A)) : ~ In k (keys l) -> remk k l = l.
+  Proof. intros NI. apply tl_remk_absent. apply tl_assoc_none_keys. exact NI. Qed.
+
+  (* a node sequence [ns] read through [f] gives the entry list [items] *)
+  Variable f : nat -> option (K * A).
+
+  Lemma reads_in ns (items : list (K * A)) n k a :
+    map f ns = map (@Some (K * A)) items -> In n ns -> f n = Some (k, a) -> In (k, a) items.
+  Proof.
+    intros E I Fn. assert (I' : In (f n) (map f ns)) by (apply in_map; auto).
+    rewrite E, Fn in I'. apply in_map_iff in I'. destruct I' as (x & Ex & Ix).
+    inversion Ex; subst. auto.
+  Qed.
+
+  Lemma reads_in_inv ns (items : list (K * A)) k a :
+    map f ns = map (@Some (K * A)) items -> In (k, a) items -> exists n, In n ns /\ f n = Some (k, a).
+  Proof.
+    intros E I. assert (I' : In (Some (k, a)) (map (@Some (K * A)) items)) by (apply in_map; auto).
+    rewrite <- E in I'. apply in_map_iff in I'. destruct I' as (n & En & In'). eauto.
+  Qed.
+
+  Lemma reads_remove ns : forall (items : list (K * A)) n k a,
+    map f ns = map (@Some (K * A)) items -> NoDup (keys items) -> In n ns -> f n = Some (k, a) ->
+    map f (remove_nat n ns) = map (@Some (K * A)) (remk k items).
+  Proof.
+    induction ns as [|x r IH]; intros items n k a E Nk I Fn; [destruct I|].
+    destruct items as [|[k' a'] it]; simpl in E; [discriminate|].
+    injection E as E1 E2. simpl in Nk. inversion Nk as [|y q Hni Hnd]; subst.
+    simpl. destruct (Nat.eqb_spec n x) as [Enx|Nnx].
+    - subst x. rewrite Fn in E1. inversion E1; subst k' a'. rewrite tl_keqb_refl.
+      rewrite remk_notin_id by auto. exact E2.
+    - destruct I as [I|I]; [congruence|].
+      assert (Nkk : k <> k').
+      { intros Ek; subst k'. apply Hni. eapply in_pair_keys. eapply reads_in; eauto. }
+      rewrite tl_keqb_neq by auto. simpl. f_equal; [exact E1|]. eapply IH; eauto.
+  Qed.
+End ReadFacts.
+
+Section VecFacts.
+  Local Open Scope list_scope.
+  Local Open Scope nat_scope.
+
+  Lemma nth_error_upd_eq A (l : list A) : forall i x, i < List.length l ->
+    nth_error (upd_nth i x l) i = Some x.
+  Proof.
+    induction l as [|y r IH]; intros [|j] x Hi; simpl in *; try lia; auto. apply IH; lia.
+  Qed.
+  Lemma nth_error_upd_neq A (l : list A) : forall i j x, j <> i ->
+    nth_error (upd_nth i x l) j = nth_error l j.
+  Proof.
+    induction l as [|y r IH]; intros [|i] [|j] x Hne; simpl; try congruence; auto.
+  Qed.
+  Lemma upd_nth_len A (l : list A) : forall i x, List.length (upd_nth i x l) = List.length l.
+  Proof. induction l as [|y r IH]; intros [|i] x; simpl; auto. Qed.
+  Lemma vget_ok A what (l : list A) i a : nth_error l i = Some a -> vget what l i = Ok a.
+  Proof. intros E. unfold vget. rewrite E. reflexivity. Qed.
+  Lemma vset_ok A what (l : list A) i a : i < List.length l -> vset what l i a = Ok (upd_nth i a l).
+  Proof. intros Hi. unfold vset. destruct (Nat.ltb_spec i (List.length l)); [reflexivity|lia]. Qed.
+
+  Lemma nodup_app_l A (a b : list A) : NoDup (a ++ b) -> NoDup a.
+  Proof.
+    induction a as [|x a IH]; simpl; intros N; [constructor|].
+    inversion N as [|y r Hni Hnd]; subst. constructor; auto.
+    intros I. apply Hni. apply in_or_app; auto.
+  Qed.
+
+  Lemma ss_app_inv A (R : A -> A -> Prop) (l1 l2 : list A) : StronglySorted R (l1 ++ l2) ->
+    StronglySorted R l1 /\ StronglySorted R l2 /\ forall a b, In a l1 -> In b l2 -> R a b.
+  Proof.
+    induction l1 as [|x l1 IH]; simpl; intros S.
+    - split; [constructor|]. split; [exact S|]. intros a b [].
+    - inversion S as [|y r S' F]; subst. destruct (IH S') as (S1 & S2 & S3).
+      rewrite Forall_forall in F. split.
+      + constructor; auto. rewrite Forall_forall. intros z Iz. apply F. apply in_or_app; auto.
+      + split; auto. intros a b [E|Ia] Ib; [subst; apply F; apply in_or_app; auto|auto].
+  Qed.
+End VecFacts.
+
+(* ------------------------------------------------------------------------------------ *)
+(* the deadline structure read through the cells                                         *)
+(* ------------------------------------------------------------------------------------ *)
+Section OrdFacts.
+  Context {K V : Type} `{EqDec K}.
+  Local Open Scope list_scope.
+  Local Open Scope nat_scope.
+
+  Lemma map_snd_ord_remove n (o : list (Z * nat)) : map snd (ord_remove n o) = remove_nat n (map snd o).
+  Proof.
+    induction o as [|[z x] r IH]; simpl; auto.
+    destruct (Nat.eqb n x); simpl; auto. f_equal. exact IH.
+  Qed.
+  Lemma ord_has_mem n (o : list (Z * nat)) : ord_has n o = mem_nat n (map snd o).
+  Proof. induction o as [|[z x] r IH]; simpl; auto. rewrite IH. reflexivity. Qed.
+  Lemma in_ord_remove_weak n (o : list (Z * nat)) zx : In zx (ord_remove n o) -> In zx o.
+  Proof.
+    induction o as [|[z x] r IH]; simpl; auto.
+    destruct (Nat.eqb n x); simpl; auto. intros [E|I]; auto.
+  Qed.
+  Lemma ord_erase_ok n (o : list (Z * nat)) : In n (map snd o) -> ord_erase o (Some n) = Ok (ord_remove n o).
+  Proof. intros I. unfold ord_erase. rewrite ord_has_mem, mem_nat_in by exact I. reflexivity. Qed.
+
+  Lemma in_mm_emplace e n (o : list (Z * nat)) zx : In zx (mm_emplace_z e n o) <-> zx = (e, n) \/ In zx o.
+  Proof.
+    induction o as [|[z x] r IH]; simpl.
+    - split; intros [E|F]; auto.
+    - destruct (z <=? e)%Z; simpl.
+      + rewrite IH. split; intros [E|[F|G]]; auto.
+      + split; intros [E|[F|G]]; auto.
+  Qed.
+  Lemma perm_mm_emplace e n (o : list (Z * nat)) : Permutation (mm_emplace_z e n o) ((e, n) :: o).
+  Proof.
+    induction o as [|[z x] r IH]; simpl; auto.
+    destruct (z <=? e)%Z; auto.
+    eapply perm_trans; [apply perm_skip; exact IH|]. apply perm_swap.
+  Qed.
+
+  Lemma perm_walk_emplace (es : list (telem K V)) e n : forall r r',
+    walk_emplace es e n r = Ok r' -> Permutation (map snd r') (n :: map snd r).
+  Proof.
+    induction r as [|[z x] r IH]; simpl; intros r' E.
+    - inversion E; subst. simpl. auto.
+    - destruct (vget _ es x) as [c|w]; simpl in E; [|discriminate].
+      destruct (e <? te_expire c)%Z.
+      + destruct (walk_emplace es e n r) as [r1|w]; simpl in E; [|discriminate].
+        inversion E; subst. simpl. eapply perm_trans; [apply perm_skip; apply IH; reflexivity|].
+        apply perm_swap.
+      + inversion E; subst. simpl. auto.
+  Qed.
+
+  (* dl_insert at the two ends *)
+  Lemma dl_insert_before_last (e : Z) (k : K) a e' k' : (e < e')%Z ->
+    dl_insert e k (a ++ [(e', k')]) = dl_insert e k a ++ [(e', k')].
+  Proof.
+    intros Hlt. induction a as [|[e1 k1] a IH]; simpl.
+    - destruct (Z.leb_spec e' e); [lia|reflexivity].
+    - destruct (e1 <=? e)%Z; simpl; [f_equal; exact IH|reflexivity].
+  Qed.
+  Lemma dl_insert_at_end (e : Z) (k : K) a : (forall x, In x a -> (fst x <= e)%Z) ->
+    dl_insert e k a = a ++ [(e, k)].
+  Proof.
+    induction a as [|[e1 k1] a IH]; simpl; intros Hall; auto.
+    destruct (Z.leb_spec e1 e) as [Hle|Hgt].
+    - f_equal. apply IH. intros x Ix. apply Hall. auto.
+    - specialize (Hall (e1, k1) (or_introl eq_refl)). simpl in Hall. lia.
+  Qed.
+
+  (* reading: [h x] is what the cell of slot x files in the deadline structure *)
+  Definition rd (h : nat -> option (Z * K)) (zn : Z * nat) : option (Z * K) := h (snd zn).
+
+  Lemma rd_in h (o : list (Z * nat)) (o' : list (Z * K)) z x :
+    map (rd h) o = map (@Some (Z * K)) o' -> In (z, x) o -> exists e k, h x = Some (e, k) /\ In (e, k) o'.
+  Proof.
+    intros E I. assert (I' : In (rd h (z, x)) (map (rd h) o)) by (apply in_map; auto).
+    rewrite E in I'. apply in_map_iff in I'. destruct I' as ([e k] & Ex & Ix).
+    exists e, k. split; auto.
+  Qed.
+  Lemma rd_in_snd h (o : list (Z * nat)) (o' : list (Z * K)) x :
+    map (rd h) o = map (@Some (Z * K)) o' -> In x (map snd o) -> exists e k, h x = Some (e, k) /\ In (e, k) o'.
+  Proof.
+    intros E I. apply in_map_iff in I. destruct I as ([z x'] & Ex & I). simpl in Ex. subst x'.
+    eapply rd_in; eauto.
+  Qed.
+  Lemma rd_ext h h' (o : list (Z * nat)) : (forall x, In x (map snd o) -> h' x = h x) ->
+    map (rd h') o = map (rd h) o.
+  Proof.
+    intros Hx. apply map_ext_in. intros [z x] I. unfold rd. simpl. apply Hx.
+    apply in_map_iff. exists (z, x). auto.
+  Qed.
+
+  Lemma rd_remove h : forall (o : list (Z * nat)) (o' : list (Z * K)) n e k,
+    map (rd h) o = map (@Some (Z * K)) o' -> NoDup (map snd o') -> In n (map snd o) -> h n = Some (e, k) ->
+    map (rd h) (ord_remove n o) = map (@Some (Z * K)) (rem2 k o').
+  Proof.
+    induction o as [|[z x] r IH]; intros o' n e k E Nd I Hn; [destruct I|].
+    destruct o' as [|[e' k'] o'']; simpl in E; [discriminate|].
+    injection E as E1 E2. unfold rd in E1. simpl in E1.
+    simpl in Nd. inversion Nd as [|y q Hni Hnd]; subst.
+    simpl. destruct (Nat.eqb_spec n x) as [Enx|Nnx].
+    - subst x. rewrite Hn in E1. inversion E1; subst e' k'. rewrite tl_keqb_refl.
+      rewrite tl_rem2_absent by exact Hni. exact E2.
+    - destruct I as [I|I]; [simpl in I; congruence|].
+      assert (Nkk : k <> k').
+      { intros Ek; subst k'. apply Hni.
+        destruct (rd_in_snd h r o'' n E2 I) as (e1 & k1 & H1 & H2). rewrite Hn in H1. inversion H1; subst.
+        apply in_map_iff. exists (e1, k1). auto. }
+      rewrite tl_keqb_neq by auto. simpl. f_equal; [exact E1|]. eapply IH; eauto.
+  Qed.
+
+  Lemma rd_mm h h' : forall (o : list (Z * nat)) (o' : list (Z * K)) e k n,
+    map (rd h) o = map (@Some (Z * K)) o' ->
+    (forall z x, In (z, x) o -> exists k', h x = Some (z, k')) ->
+    (forall x, In x (map snd o) -> h' x = h x) -> h' n = Some (e, k) ->
+    map (rd h') (mm_emplace_z e n o) = map (@Some (Z * K)) (dl_insert e k o').
+  Proof.
+    induction o as [|[z x] r IH]; intros o' e k n E Hz Hx Hn.
+    - destruct o'; [|discriminate]. simpl. unfold rd. simpl. rewrite Hn. reflexivity.
+    - destruct o' as [|[e' k'] o'']; simpl in E; [discriminate|].
+      injection E as E1 E2. unfold rd in E1. simpl in E1.
+      destruct (Hz z x (or_introl eq_refl)) as (k2 & Hk2). rewrite Hk2 in E1. inversion E1; subst e' k'.
+      assert (Hxx : h' x = h x) by (apply Hx; simpl; auto).
+      simpl. destruct (z <=? e)%Z; simpl.
+      + f_equal; [unfold rd; simpl; congruence|]. apply IH; auto.
+        * intros z1 x1 I1. apply Hz. right; auto.
+        * intros x1 I1. apply Hx. simpl; auto.
+      + f_equal; [unfold rd; simpl; exact Hn|]. f_equal; [unfold rd; simpl; congruence|].
+        rewrite <- E2. apply rd_ext. intros x1 I1. apply Hx. simpl; auto.
+  Qed.
+
+  Lemma rd_walk (es : list (telem K V)) h h' e k n : forall (r : list (Z * nat)) (ro' : list (Z * K)),
+    map (rd h) r = map (@Some (Z * K)) ro' ->
+    (forall x e' k', In x (map snd r) -> h x = Some (e', k') ->
+                     exists c, nth_error es x = Some c /\ te_expire c = e') ->
+    StronglySorted Z.le (map fst (rev ro')) ->
+    (forall x, In x (map snd r) -> h' x = h x) -> h' n = Some (e, k) ->
+    exists r', walk_emplace es e n r = Ok r' /\
+               map (rd h') r' = map (@Some (Z * K)) (rev (dl_insert e k (rev ro'))).
+  Proof.
+    induction r as [|[z x] r IH]; intros ro' E Hes Hs Hx Hn.
+    - destruct ro'; [|discriminate]. simpl. eexists. split; [reflexivity|].
+      simpl. unfold rd. simpl. rewrite Hn. reflexivity.
+    - destruct ro' as [|[e' k'] ro1]; simpl in E; [discriminate|].
+      injection E as E1 E2. unfold rd in E1. simpl in E1.
+      destruct (Hes x e' k' (or_introl eq_refl) E1) as (c & Hc & Hce).
+      assert (Hxx : h' x = h x) by (apply Hx; simpl; auto).
+      simpl walk_emplace. rewrite (vget_ok _ _ _ _ _ Hc). cbn [bind]. rewrite Hce.
+      simpl rev in Hs. rewrite map_app in Hs. simpl in Hs.
+      destruct (ss_app_inv _ _ _ _ Hs) as (S1 & _ & S3).
+      destruct (Z.ltb_spec e e') as [Hlt|Hge].
+      + destruct (IH ro1 E2) as (r1 & W & R1); auto.
+        * intros x1 e1 k1 I1. apply Hes. simpl; auto.
+        * intros x1 I1. apply Hx. simpl; auto.
+        * rewrite W. cbn [bind]. eexists. split; [reflexivity|].
+          simpl rev. rewrite dl_insert_before_last by exact Hlt. rewrite rev_unit.
+          simpl. f_equal; [unfold rd; simpl; congruence|exact R1].
+      + eexists. split; [reflexivity|].
+        rewrite dl_insert_at_end.
+        * rewrite rev_unit. simpl rev. rewrite rev_app_distr. simpl. rewrite rev_involutive.
+          f_equal; [unfold rd; simpl; exact Hn|]. f_equal; [unfold rd; simpl; congruence|].
+          rewrite <- E2. apply rd_ext. intros x1 I1. apply Hx. simpl; auto.
+        * intros [e1 k1] I1. simpl. simpl in I1. apply in_app_or in I1. destruct I1 as [I1|[I1|[]]].
+          -- assert (Hle : (e1 <= e')%Z).
+             { apply S3; [|simpl; auto]. apply in_map_iff. exists (e1, k1). auto. }
+             lia.
+          -- inversion I1; subst. lia.
+  Qed.
+End OrdFacts.
+
+(* ------------------------------------------------------------------------------------ *)
+(* the representation through its components                                             *)
+(* ------------------------------------------------------------------------------------ *)
+Section CoreFacts.
   Context {K V : Type} `{EqDec K}.
   Variable uni : bool.
+  Local Open Scope list_scope.
+  Local Open Scope nat_scope.
 
-  Theorem tt_rep_init : forall cap ttl,
-      1 <= cap -> tt_rep (K := K) (V := V) uni (ttll_init cap ttl) (tl_init uni cap ttl).
-  Admitted.
-
-  Theorem tt_step_refines : forall t (l : ttll K V) (s : tl K V) o now rnd,
-      tl_inv uni t s -> (t <= now)%Z -> tt_rep uni l s ->
-      exists l', tt_step uni l o now rnd = Ok (l', snd (tl_step s o now rnd)) /\
-                 tt_rep uni l' (fst (tl_step s o now rnd)) /\ tl_inv uni now (fst (tl_step s o now rnd)).
-  Admitted.
-
-  Fixpoint tt_run (l : ttll K V) (h : list (ev K V)) : res (ttll K V * list (ret K V)) :=
-    match h with
-    | [] => Ok (l, [])
-    | e :: r => do x <- tt_step uni l (e_op e) (e_now e) (e_rnd e);
-                let '(l1, y) := x in
-                do z <- tt_run l1 r; let '(l2, ys) := z in Ok (l2, y :: ys)
+  Definition entry_at (es : list (telem K V)) (n : nat) : option (K * (V * Z)) :=
+    match nth_error es n with
+    | Some {| te_expire := e; te_keyed := Some k; te_lru := _; te_ttl := _; te_val := Some v |} => Some (k, (v, e))
+    | _ => None
+    end.
+  Definition ordent_at (es : list (telem K V)) (n : nat) : option (Z * K) :=
+    match nth_error es n with
+    | Some {| te_expire := e; te_keyed := Some k; te_lru := _; te_ttl := _; te_val := _ |} => Some (e, k)
+    | _ => None
     end.
 
-  Theorem tt_no_UB_on_any_history : forall cap ttl h,
-      1 <= cap -> mono_from 0 h ->
-      exists l', tt_run (ttll_init cap ttl) h = Ok (l', snd (run tl_step (tl_init uni cap ttl) h)) /\
-                 tt_rep uni l' (fst (run tl_step (tl_init uni cap ttl) h)).
-  Admitted.
+  Lemma entry_at_cell es n c k v : nth_error es n = Some c -> te_keyed c = Some k -> te_val c = Some v ->
+    entry_at es n = Some (k, (v, te_expire c)).
+  Proof.
+    intros E Ek Ev. unfold entry_at. rewrite E. destruct c as [e ko lo to vo]. simpl in *. subst. reflexivity.
+  Qed.
+  Lemma ordent_at_cell es n c k : nth_error es n = Some c -> te_keyed c = Some k ->
+    ordent_at es n = Some (te_expire c, k).
+  Proof.
+    intros E Ek. unfold ordent_at. rewrite E. destruct c as [e ko lo to vo]. simpl in *. subst. reflexivity.
+  Qed.
+  Lemma entry_at_inv es n k v e : entry_at es n = Some (k, (v, e)) ->
+    exists c, nth_error es n = Some c /\ te_keyed c = Some k /\ te_val c = Some v /\ te_expire c = e.
+  Proof.
+    unfold entry_at. destruct (nth_error es n) as [c|]; [|discriminate].
+    destruct c as [e0 [k0|] lo to [v0|]]; try discriminate. intros E. inversion E; subst.
+    eexists. split; [reflexivity|]. simpl. auto.
+  Qed.
+  Lemma ordent_at_inv es n k e : ordent_at es n = Some (e, k) ->
+    exists c, nth_error es n = Some c /\ te_keyed c = Some k /\ te_expire c = e.
+  Proof.
+    unfold ordent_at. destruct (nth_error es n) as [c|]; [|discriminate].
+    destruct c as [e0 [k0|] lo to vo]; try discriminate. intros E. inversion E; subst.
+    eexists. split; [reflexivity|]. simpl. auto.
+  Qed.
+  Lemma entry_at_ext es es' n : nth_error es' n = nth_error es n -> entry_at es' n = entry_at es n.
+  Proof. intros E. unfold entry_at. rewrite E. reflexivity. Qed.
+  Lemma ordent_at_ext es es' n : nth_error es' n = nth_error es n -> ordent_at es' n = ordent_at es n.
+  Proof. intros E. unfold ordent_at. rewrite E. reflexivity. Qed.
 
-  Theorem tt_value_cells_constant : forall cap ttl h l' rs,
-      1 <= cap -> mono_from 0 h ->
-      tt_run (ttll_init cap ttl) h = Ok (l', rs) -> List.length (tt_elems l') = cap.
-  Admitted.
-End TtlLitFacts.
+  Definition cellok (es : list (telem K V)) (ix : list (K * nat)) (n : nat) (k : K) (v : V) (e : Z) : Prop :=
+    exists c, nth_error es n = Some c /\ te_keyed c = Some k /\ te_val c = Some v /\ te_expire c = e /\
+              te_lru c = Some (It n) /\ te_ttl c = Some n /\ assoc k ix = Some n.
+
+  Definition core (cap : nat) (es : list (telem K V)) (ix : list (K * nat)) (used free : list nat)
+             (o : list (Z * nat)) (lru : list (K * (V * Z))) (ord : list (Z * K)) : Prop :=
+    List.length es = cap /\ NoDup (used ++ free) /\ List.length (used ++ free) = cap /\
+    (forall n, In n (used ++ free) -> n < cap) /\
+    List.length ix = List.length used /\ NoDup (keys ix) /\
+    map (entry_at es) (rev used) = map (@Some (K * (V * Z))) lru /\
+    map (rd (ordent_at es)) o = map (@Some (Z * K)) ord /\
+    NoDup (map snd o) /\ (forall n, In n used <-> In n (map snd o)) /\
+    (uni = false -> forall z n, In (z, n) o -> exists c, nth_error es n = Some c /\ te_expire c = z) /\
+    (forall n, In n used -> exists k v e, cellok es ix n k v e) /\
+    (forall k n, assoc k ix = Some n -> In n used /\ exists c, nth_error es n = Some c /\ te_keyed c = Some k).
+
+  Lemma core_nodup_used cap es ix used free o lru ord : core cap es ix used free o lru ord -> NoDup used.
+  Proof. intros (_ & Hnd & _). eapply nodup_app_l; eauto. Qed.
+
+  Lemma core_len cap es ix used free o lru ord : core cap es ix used free o lru ord ->
+    List.length lru = List.length used.
+  Proof.
+    intros (_ & _ & _ & _ & _ & _ & Hmap & _).
+    apply (f_equal (@List.length _)) in Hmap. rewrite !map_length, rev_length in Hmap. auto.
+  Qed.
+  Lemma core_len_ord cap es ix used free o lru ord : core cap es ix used free o lru ord ->
+    List.length ord = List.length o.
+  Proof.
+    intros (_ & _ & _ & _ & _ & _ & _ & Hord & _).
+    apply (f_equal (@List.length _)) in Hord. rewrite !map_length in Hord. auto.
+  Qed.
+
+  Lemma core_lookup cap es ix used free o lru ord k n :
+    core cap es ix used free o lru ord -> NoDup (keys lru) -> assoc k ix = Some n ->
+    In n used /\ n < cap /\ exists v e, cellok es ix n k v e /\ assoc k lru = Some (v, e).
+  Proof.
+    intros (Hle & Hnd & Hlen & Hb & Hix & Hnk & Hmap & Hord & Hndo & Huo & Hz & HA & HB) Nk E.
+    destruct (HB k n E) as (I & c & Hc & Hck).
+    split; [exact I|]. split; [apply Hb; apply in_or_app; auto|].
+    destruct (HA n I) as (k0 & v & e & c0 & Hc0 & Hk0 & Hv0 & He0 & Hl0 & Ht0 & Ha0).
+    rewrite Hc in Hc0. inversion Hc0; subst c0. rewrite Hck in Hk0. inversion Hk0; subst k0.
+    exists v, e. split.
+    - exists c. repeat split; auto.
+    - apply tl_in_assoc_nodup; auto. eapply reads_in; [exact Hmap|apply -> in_rev; exact I|].
+      rewrite <- He0. apply entry_at_cell; auto.
+  Qed.
+
+  Lemma core_lookup_none cap es ix used free o lru ord k :
+    core cap es ix used free o lru ord -> assoc k ix = None -> assoc k lru = None.
+  Proof.
+    intros (Hle & Hnd & Hlen & Hb & Hix & Hnk & Hmap & Hord & Hndo & Huo & Hz & HA & HB) E.
+    destruct (assoc k lru) as [[v e]|] eqn:Ea; auto. exfalso.
+    apply tl_assoc_some_in in Ea.
+    destruct (reads_in_inv _ _ _ _ _ Hmap Ea) as (n & I & Fn).
+    apply in_rev in I. destruct (HA n I) as (k0 & v0 & e0 & c0 & Hc0 & Hk0 & Hv0 & He0 & Hl0 & Ht0 & Ha0).
+    destruct (entry_at_inv _ _ _ _ _ Fn) as (c & Hc & Hk & _).
+    rewrite Hc in Hc0. inversion Hc0; subst c0. rewrite Hk in Hk0. inversion Hk0; subst k0. congruence.
+  Qed.
+
+  (* do_erase *)
+  Lemma core_erase cap es ix used free o lru ord k n :
+    core cap es ix used free o lru ord -> tl_core lru ord -> assoc k ix = Some n ->
+    core cap es (remk k ix) (remove_nat n used) (n :: free) (ord_remove n o) (remk k lru) (rem2 k ord).
+  Proof.
+    intros C (Nk & Nko & _ & _) E.
+    pose proof (core_nodup_used _ _ _ _ _ _ _ _ C) as Nu.
+    destruct (core_lookup _ _ _ _ _ _ _ _ _ _ C Nk E) as (I & Hn & v0 & e0 & CK & Ea).
+    destruct C as (Hle & Hnd & Hlen & Hb & Hix & Hnk & Hmap & Hord & Hndo & Huo & Hz & HA & HB).
+    destruct CK as (c & Hc & Hck & Hcv & Hce & Hcl & Hct & _).
+    assert (P1 : Permutation (n :: remove_nat n used) used) by (apply perm_remove_nat; auto).
+    assert (P : Permutation (remove_nat n used ++ n :: free) (used ++ free)).
+    { eapply perm_trans; [symmetry; apply Permutation_middle|].
+      change (n :: remove_nat n used ++ free) with ((n :: remove_nat n used) ++ free).
+      apply Permutation_app_tail. exact P1. }
+    unfold core.
+    split; [exact Hle|].
+    split. { eapply Permutation_NoDup; [symmetry; exact P|exact Hnd]. }
+    split. { rewrite (Permutation_length P). exact Hlen. }
+    split. { intros m Im. apply Hb. eapply Permutation_in; eauto. }
+    split. { apply Permutation_length in P1. simpl in P1.
+             pose proof (tl_length_remk k n ix Hnk E). lia. }
+    split; [apply tl_nodup_keys_remk; exact Hnk|].
+    split.
+    { rewrite <- remove_nat_rev by exact Nu.
+      eapply reads_remove; [exact Hmap|exact Nk|apply -> in_rev; exact I|].
+      rewrite <- Hce. apply entry_at_cell; auto. }
+    split.
+    { eapply rd_remove; [exact Hord|exact Nko|apply Huo; exact I|].
+      rewrite <- Hce. apply ordent_at_cell; auto. }
+    split. { rewrite map_snd_ord_remove. apply nodup_remove_nat. exact Hndo. }
+    split.
+    { intros m. rewrite map_snd_ord_remove. rewrite !in_remove_nat by auto. rewrite Huo. tauto. }
+    split. { intros Hu z m Im. apply (Hz Hu). eapply in_ord_remove_weak; eauto. }
+    split.
+    { intros m Im. apply in_remove_nat in Im; [|exact Nu]. destruct Im as [Im Nmn].
+      destruct (HA m Im) as (km & vm & em & cm & Hcm & Hkm & Hvm & Hem & Hlm & Htm & Ham).
+      exists km, vm, em, cm. repeat split; auto.
+      rewrite tl_assoc_remk. destruct (Base.eqb_spec k km) as [Ek|Nkk]; auto.
+      subst km. rewrite E in Ham. inversion Ham. congruence. }
+    intros k' m E'. rewrite tl_assoc_remk in E'.
+    destruct (Base.eqb_spec k k') as [Ek|Nkk]; [discriminate|].
+    destruct (HB k' m E') as (Im & cm & Hcm & Hkm). split; [|eauto].
+    apply in_remove_nat; auto. split; auto. intros Emn; subst m.
+    rewrite Hc in Hcm. inversion Hcm; subst cm. congruence.
+  Qed.
+
+  (* do_access of node n, whose cell (and the deadline structure) may have been rewritten *)
+  Lemma core_touch cap es ix used free o lru ord k n es' c' v ex o2 ord2 :
+    core cap es ix used free o lru ord -> NoDup (keys lru) -> assoc k ix = Some n ->
+    List.length es' = cap -> nth_error es' n = Some c' ->
+    te_keyed c' = Some k -> te_val c' = Some v -> te_expire c' = ex ->
+    te_lru c' = Some (It n) -> te_ttl c' = Some n ->
+    (forall m, m <> n -> nth_error es' m = nth_error es m) ->
+    map (rd (ordent_at es')) o2 = map (@Some (Z * K)) ord2 ->
+    Permutation (map snd o2) (map snd o) ->
+    (uni = false -> forall z m, In (z, m) o2 -> exists c, nth_error es' m = Some c /\ te_expire c = z) ->
+    core cap es' ix (n :: remove_nat n used) free o2 (remk k lru ++ [(k, (v, ex))]) ord2.
+  Proof.
+    intros C Nk E Hes' Hc' Hk' Hv' He' Hl' Ht' Hm Hord2 Po Hz2.
+    pose proof (core_nodup_used _ _ _ _ _ _ _ _ C) as Nu.
+    destruct (core_lookup _ _ _ _ _ _ _ _ _ _ C Nk E) as (I & Hn & v0 & e0 & CK & Ea).
+    destruct C as (Hle & Hnd & Hlen & Hb & Hix & Hnk & Hmap & Hord & Hndo & Huo & Hz & HA & HB).
+    destruct CK as (c & Hc & Hck & Hcv & Hce & Hcl & Hct & _).
+    assert (P1 : Permutation (n :: remove_nat n used) used) by (apply perm_remove_nat; auto).
+    assert (P : Permutation ((n :: remove_nat n used) ++ free) (used ++ free))
+      by (apply Permutation_app_tail; exact P1).
+    unfold core.
+    split; [exact Hes'|].
+    split. { eapply Permutation_NoDup; [symmetry; exact P|exact Hnd]. }
+    split. { rewrite (Permutation_length P). exact Hlen. }
+    split. { intros m Im. apply Hb. eapply Permutation_in; eauto. }
+    split. { rewrite (Permutation_length P1). exact Hix. }
+    split; [exact Hnk|].
+    split.
+    { simpl rev. rewrite <- remove_nat_rev by exact Nu. rewrite !map_app. f_equal.
+      - erewrite map_ext_in.
+        + eapply reads_remove; [exact Hmap|exact Nk|apply -> in_rev; exact I|].
+          rewrite <- Hce. apply entry_at_cell; auto.
+        + intros m Im. apply entry_at_ext. apply Hm.
+          apply in_remove_nat in Im; [tauto|]. apply NoDup_rev. exact Nu.
+      - simpl. f_equal. rewrite <- He'. apply entry_at_cell; auto. }
+    split; [exact Hord2|].
+    split. { eapply Permutation_NoDup; [symmetry; exact Po|exact Hndo]. }
+    split.
+    { intros m. split; intros Im.
+      - eapply Permutation_in; [symmetry; exact Po|]. apply Huo. eapply Permutation_in; eauto.
+      - eapply Permutation_in; [symmetry; exact P1|]. apply Huo. eapply Permutation_in; eauto. }
+    split; [exact Hz2|].
+    split.
+    { intros m Im. assert (Im' : In m used) by (eapply Permutation_in; eauto).
+      destruct (Nat.eq_dec m n) as [Emn|Nmn].
+      - subst m. exists k, v, ex, c'. repeat split; auto.
+      - destruct (HA m Im') as (km & vm & em & cm & Hcm & R). exists km, vm, em, cm.
+        split; [rewrite Hm by auto; exact Hcm|exact R]. }
+    intros k' m E'. destruct (HB k' m E') as (Im & cm & Hcm & Hkm).
+    split; [eapply Permutation_in; [symmetry; exact P1|exact Im]|].
+    destruct (Nat.eq_dec m n) as [Emn|Nmn].
+    - subst m. rewrite Hc in Hcm. inversion Hcm; subst cm.
+      exists c'. split; auto. congruence.
+    - exists cm. rewrite Hm by auto. auto.
+  Qed.
+
+  (* claiming the first free node n for a new key k, then do_access *)
+  Lemma core_claim cap es ix used free' o lru ord k n es' c' v ex o2 ord2 :
+    core cap es ix used (n :: free') o lru ord -> assoc k ix = None ->
+    List.length es' = cap -> nth_error es' n = Some c' ->
+    te_keyed c' = Some k -> te_val c' = Some v -> te_expire c' = ex ->
+    te_lru c' = Some (It n) -> te_ttl c' = Some n ->
+    (forall m, m <> n -> nth_error es' m = nth_error es m) ->
+    map (rd (ordent_at es')) o2 = map (@Some (Z * K)) ord2 ->
+    Permutation (map snd o2) (n :: map snd o) ->
+    (uni = false -> forall z m, In (z, m) o2 -> exists c, nth_error es' m = Some c /\ te_expire c = z) ->
+    core cap es' (ix ++ [(k, n)]) (n :: used) free' o2 (lru ++ [(k, (v, ex))]) ord2.
+  Proof.
+    intros C E Hes' Hc' Hk' Hv' He' Hl' Ht' Hm Hord2 Po Hz2.
+    pose proof (core_nodup_used _ _ _ _ _ _ _ _ C) as Nu.
+    destruct C as (Hle & Hnd & Hlen & Hb & Hix & Hnk & Hmap & Hord & Hndo & Huo & Hz & HA & HB).
+    assert (Nn : ~ In n used).
+    { apply NoDup_remove_2 in Hnd. intros I. apply Hnd. apply in_or_app; auto. }
+    assert (P : Permutation ((n :: used) ++ free') (used ++ n :: free')) by apply Permutation_middle.
+    unfold core.
+    split; [exact Hes'|].
+    split. { eapply Permutation_NoDup; [symmetry; exact P|exact Hnd]. }
+    split. { rewrite (Permutation_length P). exact Hlen. }
+    split. { intros m Im. apply Hb. eapply Permutation_in; eauto. }
+    split. { rewrite app_length. simpl. lia. }
+    split. { unfold keys. rewrite map_app. simpl. apply tl_NoDup_snoc; auto.
+             apply tl_assoc_none_keys. exact E. }
+    split.
+    { simpl rev. rewrite !map_app. f_equal.
+      - rewrite <- Hmap. apply map_ext_in. intros m Im. apply entry_at_ext. apply Hm.
+        apply in_rev in Im. intros Emn; subst; auto.
+      - simpl. f_equal. rewrite <- He'. apply entry_at_cell; auto. }
+    split; [exact Hord2|].
+    split.
+    { eapply Permutation_NoDup; [symmetry; exact Po|]. constructor; auto.
+      intros I. apply Nn. apply Huo. exact I. }
+    split.
+    { intros m. split; intros Im.
+      - eapply Permutation_in; [symmetry; exact Po|]. destruct Im as [Em|Im]; [left; auto|].
+        right. apply Huo. exact Im.
+      - apply (Permutation_in _ Po) in Im. destruct Im as [Em|Im]; [left; auto|].
+        right. apply Huo. exact Im. }
+    split; [exact Hz2|].
+    split.
+    { intros m [Emn|Im].
+      - subst m. exists k, v, ex, c'. repeat split; auto.
+        rewrite tl_assoc_app, E. simpl. rewrite tl_keqb_refl. reflexivity.
+      - destruct (HA m Im) as (km & vm & em & cm & Hcm & Hkm & Hvm & Hem & Hlm & Htm & Ham).
+        exists km, vm, em, cm. split; [rewrite Hm by (intros Emn; subst; auto); exact Hcm|].
+        repeat split; auto. rewrite tl_assoc_app, Ham. reflexivity. }
+    intros k' m E'. rewrite tl_assoc_app in E'.
+    destruct (assoc k' ix) as [m0|] eqn:A0.
+    - inversion E'; subst m0. destruct (HB k' m A0) as (Im & cm & Hcm & Hkm).
+      split; [right; exact Im|]. exists cm. split; auto.
+      rewrite Hm by (intros Emn; subst; auto). exact Hcm.
+    - simpl in E'. destruct (Base.eqb_spec k' k) as [Ek|Nkk]; [|discriminate].
+      inversion E'; subst. split; [left; auto|]. exists c'. auto.
+  Qed.
+End CoreFacts.
